@@ -42,7 +42,12 @@ type UEmbV struct {
 	UL2
 	embHidden string
 }
-type UEmbP struct{ PProm string }
+type UEmbP struct {
+	PProm string
+	PI    interface{} // holds a typed nil map
+	PJ    interface{} // holds a typed nil pointer
+	PK    interface{} // holds a string
+}
 type ULang string
 type UID int64
 
@@ -69,6 +74,8 @@ type UOuter struct {
 	Str    string
 	I      interface{}
 	NilI   interface{}
+	TNil   interface{} // holds (*UInner)(nil)
+	TNilM  interface{} // holds map[string]int(nil)
 	U8     uint8
 	secret string
 }
@@ -89,12 +96,12 @@ func newUOuter(withEmbP bool) *UOuter {
 		MS: map[string]UInner{"e": {Name: "ms-e", N: 5}},
 		ML: map[ULang]string{"k": "lang-k", "Name": "", "e": "lang-e"}, MID: map[UID]string{7: "id-seven", 0: ""},
 		S:  []string{"s0", "s1"}, SI: []UInner{{Name: "si0", N: 3}}, A: [2]int{4, 5}, Str: "str",
-		I: UInner{Name: "iface"}, U8: 200, secret: "x",
+		I: UInner{Name: "iface"}, U8: 200, secret: "x", TNil: (*UInner)(nil), TNilM: map[string]int(nil),
 	}
 	backing := []string{"c0", "c1", "STALE2", "STALE3"}
 	o.SC = backing[:2]
 	if withEmbP {
-		o.UEmbP = &UEmbP{PProm: "pprom"}
+		o.UEmbP = &UEmbP{PProm: "pprom", PI: map[string]int(nil), PJ: (*UInner)(nil), PK: "pk"}
 	}
 	return o
 }
@@ -109,7 +116,7 @@ type c06Step struct {
 	arg  string
 }
 
-var c06Fields = []string{"Promoted", "PProm", "Shadow", "In", "PIn", "NilIn", "PP", "M", "MI", "MA", "MS", "NilM", "ML", "MID", "S", "SI", "NilS", "SC", "A", "Str", "I", "NilI", "U8", "secret", "Nope", "Name", "N", "hidden", "k", "absent", "nilval", "v", "in", "e", "UEmbV", "ID", "Title", "Owner", "Mid", "Deepest", "Deepest2", "UL2", "UL3", "embHidden"}
+var c06Fields = []string{"Promoted", "PProm", "Shadow", "In", "PIn", "NilIn", "PP", "M", "MI", "MA", "MS", "NilM", "ML", "MID", "S", "SI", "NilS", "SC", "A", "Str", "I", "NilI", "TNil", "TNilM", "PI", "PJ", "PK", "U8", "secret", "Nope", "Name", "N", "hidden", "k", "absent", "nilval", "v", "in", "e", "UEmbV", "ID", "Title", "Owner", "Mid", "Deepest", "Deepest2", "UL2", "UL3", "embHidden"}
 
 func c06Steps() []c06Step {
 	var st []c06Step
